@@ -6,6 +6,26 @@ CHECKS = [
   "Every pair of consumer/supplier range maps over the stated bound (16^6 = 16.7M pairs) is run through the real ReplicationUpdateVector::range_diff and compared with a decision table written from the property text; the input space is finite and is covered completely, so within the bound this is a decision, not a sample.",
   "Trusts the decision table in harness/kv-core/src/checks/c10.rs; only order relations between window bounds matter to the code, so a 5-point time grid exercises every comparison outcome. The mapping of the status to the wire answer in supplier_provide_changes is covered by C09.",
   "DESIGN.md section 4 C10"),
+ ("C21", "E1-product", "exploration",
+  "exhaustive sweep of all 2^32 supplied gids and all 2^32 generation inputs (quick: all boundary neighbourhoods) through the real gidnumber kernel",
+  "The gidnumber plugin's private kernel is run on every u32 as a caller-supplied gid and on every value of the uuid bytes used for generation (thorough = the full 2^32 on both sides, i.e. the whole input space of the kernel; quick = every value within 4096 of any range boundary plus the low 2^17 and the 2^31 neighbourhood). Accepted/generated values are tested against a reserved-range table written from the property, and the real create and modify paths are shown to agree with the kernel on boundary values.",
+  "Reserved set is 0-999, 60001-60577, 61184-65519, 65534, 65535 (statement + systemd UIDS-GIDS); the nspawn container range is accepted by design. Kernel reached through a verif-hooks wrapper around the private apply_gidnumber; conformance with the real plugin path is checked on 28 supplied and 8 generated boundary values on a live server.",
+  "DESIGN.md section 4 C21"),
+ ("C28", "E2-forkdfs", "model_checking",
+  "explicit-state BFS to a fixpoint over the real CredSoftLock object (failure/check/time-advance/admin-expiry events) with history-variable invariants",
+  "Breadth-first search to a fixpoint, inside a time horizon, of the state graph whose transitions are calls of the real CredSoftLock (apply_time_step / is_valid / record_failure) in the order IdmServer uses them; every reachable state is checked for: refused until unlock, lock never shortened, count resets only after reset time or admin expiry, at most 100 failures per UTC day / 3 per TOTP step. All three policies, with and without administrator expiry.",
+  "The model IS the implementation (no abstraction gap); the harness adds a clock, an admin-expiry variable and history counters. Horizon: ~20 min around a UTC day boundary for passwords (long enough to reach the 100-failure cap), 3+ steps for TOTP. Clock is non-decreasing. The server paths that consult the lock (auth, unix, ldap, reauth) are exercised on a live IdmServer only in later rounds.",
+  "DESIGN.md section 4 C28"),
+ ("C29", "E1-product", "exploration",
+  "exhaustive enumeration of secret lengths x algorithms x digits x steps x every second of several steps x candidate codes (thorough: full 10^6/10^8 code space sweeps) through the real Totp::verify against an independent python RFC 6238 oracle",
+  "Every case of the product is run through the real Totp::verify and compared with an independent RFC 6238 implementation (python hmac/hashlib, self-tested on the RFC vectors at each run); thorough additionally sweeps the whole code space for 48 (secret,time) cases so the accepted set is shown to be exactly {code(c), code(c-1)}.",
+  "Independent oracle = python3 stdlib hmac (OpenSSL). Secrets are two byte patterns per length in {0,1,20,32,64,65,128,129,200}; times cover every second of 2-4 consecutive steps plus instants around 2^31, 2^32.",
+  "DESIGN.md section 4 C29"),
+ ("C35", "E1-product", "exploration",
+  "exhaustive enumeration of all ordered policy sequences (1296-policy alphabet length<=2, 256-policy alphabet length 3, per-field 5-value alphabets length<=5) through the real fold",
+  "All ordered sequences (hence all permutations of every multiset) over policy alphabets that straddle every comparison in the fold are run through the real ResolvedAccountPolicy::fold_from; each result is compared with the fold of the sorted sequence (order independence) and tested for strictness against every member, CA-list containment and the single-factor minimum length.",
+  "fold_from is reached through a verif-hooks wrapper that copies plain data in and out. Policy values outside the alphabets are not covered; search limits are only required to be order independent (the statement does not list them as strictness fields).",
+  "DESIGN.md section 4 C35"),
 ]
 NOT_APPLICABLE = [
 ]
